@@ -220,21 +220,24 @@ pub fn process_node(node: Node, config: &ParseXmlConfig) -> Value {
                     // For a single node, 'flatten' the object if necessary.
                     1 => {
                         // Expect a single element.
-                        let node = node.children().next().expect("expected 1 XML node");
+                        let child = node.children().next().expect("expected 1 XML node");
 
                         // If the node is an element, treat it as an object.
-                        if node.is_element() {
+                        if child.is_element() {
                             let mut map = BTreeMap::new();
 
                             map.insert(
-                                node.tag_name().name().to_string().into(),
-                                process_node(node, config),
+                                child.tag_name().name().to_string().into(),
+                                process_node(child, config),
                             );
 
                             Value::Object(map)
-                        } else {
+                        } else if child.is_text() {
                             // Otherwise, 'flatten' the object by continuing processing.
-                            process_node(node, config)
+                            process_node(child, config)
+                        } else {
+                            // A lone comment or processing instruction is not represented.
+                            Value::Object(recurse(node))
                         }
                     }
                     // For 2+ nodes, expand.
